@@ -106,6 +106,7 @@ impl World {
         link.0.lock().unwrap().max_message = crate::engine::MAX_SIM_MESSAGE + total;
         for sd in 0..2 {
             link.0.lock().unwrap().dir[sd].flush_waits = case.flush_waits[sd];
+            link.0.lock().unwrap().dir[sd].wb_cap = case.write_behind[sd].map(|k| k as usize);
         }
         let parking = Parking::default();
         let keep = Keeper(Default::default(), Rc::new(case.bridges.clone()));
@@ -439,7 +440,7 @@ impl World {
             if let Some(w) = dir.send_waker.take() {
                 w.wake();
             }
-            if dir.inflight.is_empty() {
+            if dir.inflight.is_empty() || dir.wb_cap.is_some() {
                 if let Some(w) = dir.flush_waker.take() {
                     w.wake();
                 }
